@@ -51,15 +51,31 @@ func (state *singleRateLimitState) TryToIncrement(
 	state.windowData = windowData
 	state.ensureWindowIsUpdated()
 
-	maxAllowedInWindows := int64(math.Ceil(float64(
-		windowData.AllowedRequestCount+state.spillover) *
-		windowData.QuotaAllocationRatio))
+	maxAllowedInWindows := scaledCeil(
+		windowData.AllowedRequestCount+state.spillover,
+		windowData.QuotaAllocationRatio,
+	)
 	if state.counter >= maxAllowedInWindows {
 		return CurrentLimitState{state.counter, Block}
 	}
 
 	state.counter++
 	return CurrentLimitState{state.counter, Proceed}
+}
+
+// Allocation ratios are taken in units of 1e-8,
+// so percentages with up to six decimals are represented exactly.
+const ratioResolution = 100_000_000
+
+// scaledCeil returns count*ratio rounded up, computed in integers: the float64
+// product is not exact (100 * 0.07 = 7.000000000000001 used to give 8, not 7).
+func scaledCeil(count int64, ratio float64) int64 {
+	product := count * int64(math.Round(ratio*ratioResolution))
+	result := product / ratioResolution
+	if product > 0 && product%ratioResolution != 0 {
+		result++
+	}
+	return result
 }
 
 func (state *singleRateLimitState) Counter() int64 {
